@@ -73,12 +73,15 @@ static void over_avx (OrcCompiler * p, void *user, OrcInstruction * insn)
 /* ---- history alphabet ---- */
 static const char *tnames[] = { "sse", "avx", "mmx" };
 /* flag requirement kinds: 0 none, 1 a flag the CPU has (SSE4.1 for sse/avx, MMX for mmx), 2 a flag the CPU lacks (SSE5 bit / 3DNOW) */
+/* 3: two flags of which the CPU has one and lacks the other (not satisfied); 4: two flags the CPU has (satisfied) */
 static unsigned flagval (int t, int fk)
 {
   if (fk == 0) return 0;
-  if (t == 2) return fk == 1 ? ORC_TARGET_MMX_MMX : ORC_TARGET_MMX_3DNOW;
-  return fk == 1 ? ORC_TARGET_SSE_SSE4_1 : ORC_TARGET_SSE_SSE5;
+  if (t == 2) return fk == 1 ? ORC_TARGET_MMX_MMX : fk == 2 ? ORC_TARGET_MMX_3DNOWEXT : fk == 3 ? (ORC_TARGET_MMX_MMX | ORC_TARGET_MMX_3DNOWEXT) : (ORC_TARGET_MMX_MMX | ORC_TARGET_MMX_MMXEXT);
+  return fk == 1 ? ORC_TARGET_SSE_SSE4_1 : fk == 2 ? ORC_TARGET_SSE_SSE5 : fk == 3 ? (ORC_TARGET_SSE_SSE4_1 | ORC_TARGET_SSE_SSE5) : (ORC_TARGET_SSE_SSE4_1 | ORC_TARGET_SSE_SSSE3);
 }
+static int fk_satisfied (int fk) { return fk == 0 || fk == 1 || fk == 4; }
+static const char *fk_name (int fk) { static const char *n[] = { "noflags", "have", "lack", "have+lack", "have+have" }; return n[fk]; }
 typedef struct { int kind; int set; int target; int fk; } Op;	/* kind 0 set, 1 rules, 2 override */
 static Op alphabet[128];
 static int nalpha;
@@ -90,8 +93,8 @@ static const char *op_str (const Op * o)
   static int k;
   char *s = b[k = (k + 1) & 3];
   if (o->kind == 0) snprintf (s, 64, "set%c", 'A' + o->set);
-  else if (o->kind == 1) snprintf (s, 64, "rules(%s,set%c,%s)", tnames[o->target], 'A' + o->set, o->fk == 0 ? "noflags" : o->fk == 1 ? "have" : "lack");
-  else snprintf (s, 64, "override(%s,%s)", tnames[o->target], o->fk == 0 ? "noflags" : o->fk == 1 ? "have" : "lack");
+  else if (o->kind == 1) snprintf (s, 64, "rules(%s,set%c,%s)", tnames[o->target], 'A' + o->set, fk_name (o->fk));
+  else snprintf (s, 64, "override(%s,%s)", tnames[o->target], fk_name (o->fk));
   return s;
 }
 
@@ -162,11 +165,11 @@ static void child (const Op * hist, int nh, int wfd)
         for (k = 0; sets[o->set][k].name[0]; k++)
           orc_rule_register (rs, sets[o->set][k].name, o->target == 0 ? rule_sse : o->target == 1 ? rule_avx : rule_mmx, (void *) (long) id);
         registered_rules[o->target][o->set] = 1;
-        if (o->fk != 2) exp_rule[o->target][o->set] = id;
+        if (fk_satisfied (o->fk)) exp_rule[o->target][o->set] = id;
       } else {
         rs = orc_rule_set_new (orc_opcode_set_get ("sys"), tg, fl);
         orc_rule_register (rs, "addw", o->target == 0 ? over_sse : over_avx, (void *) (long) id);
-        if (o->fk != 2) exp_over[o->target] = id;
+        if (fk_satisfied (o->fk)) exp_over[o->target] = id;
       }
     }
   }
@@ -347,11 +350,12 @@ int main (int argc, char **argv)
   setvbuf (stdout, NULL, _IOLBF, 0);
   orc_init ();
   for (s = 0; s < (thorough ? 4 : 3); s++) { alphabet[nalpha].kind = 0; alphabet[nalpha].set = s; nalpha++; }
-  for (t = 0; t < ntargets_used; t++) for (s = 0; s < (thorough ? 4 : 3); s++) for (fk = 0; fk < 3; fk++) {
-    if (!thorough && s > 0 && fk == 0) continue;	/* quick: flag variety on set A, have/lack on the others */
+  for (t = 0; t < ntargets_used; t++) for (s = 0; s < (thorough ? 4 : 3); s++) for (fk = 0; fk < 5; fk++) {
+    if (!thorough && s > 0 && fk != 1 && fk != 2) continue;	/* quick: flag variety on set A, have/lack on the others */
+    if (thorough && s > 1 && fk > 2) continue;
     alphabet[nalpha].kind = 1; alphabet[nalpha].set = s; alphabet[nalpha].target = t; alphabet[nalpha].fk = fk; nalpha++;
   }
-  for (t = 0; t < 2; t++) for (fk = 0; fk < 3; fk++) { if (fk == 1 && !thorough) continue; alphabet[nalpha].kind = 2; alphabet[nalpha].target = t; alphabet[nalpha].fk = fk; nalpha++; }
+  for (t = 0; t < 2; t++) for (fk = 0; fk < 5; fk++) { if ((fk == 1 || fk == 4) && !thorough) continue; alphabet[nalpha].kind = 2; alphabet[nalpha].target = t; alphabet[nalpha].fk = fk; nalpha++; }
   run_hist (h, 0, &base);
   if (base.rc) { v_out ("{\"t\":\"viol\",\"key\":\"C20|baseline\",\"what\":\"empty history fails: %s\",\"replay\":{}}", v_esc (base.msg)); return 0; }
   dfs (h, 0, 0, nr);
